@@ -24,6 +24,16 @@ def check(run):
             op = run.rng.choice(OPS + ["Add"] * 4)
             p.append(dict(op=op, n=run.rng.choice("ab"), k=run.rng.randint(1, 5), v=run.rng.randint(11, 15)))
         plans.append(p)
+    # grow large, then shrink (map growth / many removals of absent and present entries), 24 keys x 24 values
+    for i in range(2 if run.quick() else 20):
+        p = [dict(op="Reset", n="a", k=0, v=0, nk=24, nv=24)]
+        for j in range(60):
+            p.append(dict(op="Add", n="a", k=run.rng.randint(1, 24), v=run.rng.randint(11, 34)))
+        p.append(dict(op="Clone", n="a", k=0, v=0))
+        for j in range(80):
+            op = run.rng.choice(["RemoveForward", "RemoveReverse", "RemoveForward", "RemoveReverse", "Add"])
+            p.append(dict(op=op, n=run.rng.choice("ab"), k=run.rng.randint(1, 24), v=run.rng.randint(11, 34)))
+        plans.append(p)
     segs = execute(run, plans)
     if len(segs) != len(plans):
         raise Inconclusive("driver returned %d segments for %d plans" % (len(segs), len(plans)))
@@ -34,7 +44,7 @@ def check(run):
                    rule="tour paths covering every edge of the TLC state graph of Bimap.tla (all pairs of partial bijections "
                         "x every call on either bimap value incl. Clone) + seeded histories over 5x5; non-trivial = >= 2 calls")
     run.cov["samples"] = [[{k: v for k, v in e.items() if k != "obs"} for e in segs[0][:8]], segs[-1][1]]
-    run.assumptions += ["K = V = int", "Range early stop probed with stop-after-first only"]
+    run.assumptions += ["K = V = int; the universes contain the zero value of K and of V", "Range early stop probed with stop-after-first only"]
     return finish(run, reexec=lambda rej: execute(run, [rej["plan"]])[0])
 
 
